@@ -162,6 +162,9 @@ func (g *gen) part(richness, pInvalid int, allowBad bool) *Part {
 	if g.pct(richness / 3) {
 		p.TU = sp(fmt.Sprintf("tu%d", n))
 	}
+	if g.pct(richness / 3) {
+		p.Held = sp(fmt.Sprintf("held%d", n))
+	}
 	if g.pct(richness) {
 		p.NestS = sp(fmt.Sprintf("ns%d", n))
 	}
@@ -364,7 +367,8 @@ func genCore(prop string, seed uint64, faulty bool) *Scenario {
 		return p
 	}
 	sc.Skip = g.pct(base(k.pSkip, 8))
-	sc.Delay = !sc.Skip && g.pct(base(k.pDelay, 10))
+	// (both options together: the delay is in force all the same)
+	sc.Delay = g.pct(base(k.pDelay, 10))
 	sc.Suppress = g.pct(base(k.pSuppress, 12))
 	if k.enablers == 0 {
 		k.enablers = 70
